@@ -187,6 +187,9 @@ def exNestCycle : Config :=
 example : labeledGroups (graphOf exNestCycle) [0, 1, 2] = .error .cycle := by decide
 example : labeledGroups (graphOf exNestCycle) [2] = .ok [[2]] := by decide
 example : indexGroups (graphOf exNestCycle) [0, 1, 2] = .error .cycle ∧ indexGroups (graphOf exNestCycle) [2] = .ok [[2]] := by decide
+/-- the pinned tree's walk (one `active` set, never cleared) reported a cycle for this diamond -/
+example : setVisibleLegacy ⟨[[1, 2], [3], [3], []]⟩ 0 = .error (.cycle 3) ∧
+    setVisible ⟨[[1, 2], [3], [3], []]⟩ [] 0 = .ok [2, 3, 1, 0] := by decide
 /-- a diamond is not a cycle for the walk (the pinned tree's `active` set said it was) -/
 example : indexGroups ⟨[[1, 2], [3], [3], []]⟩ [0] = .ok [[0], [2, 1], [3]] := by decide
 
